@@ -76,7 +76,7 @@ fn read_len_transition(pos: &mut usize, bytes: &mut [u8; 2], read: usize) -> (ne
         *final(pos) == 2 ==> (new_state matches Some(ReadTcpState::Bytes { pos: p, bytes: b }) && p == 0
             && b@.len() == old(bytes)@[0] as int * 256 + old(bytes)@[1] as int),
 {
-//%expr crates/net/src/tcp/tcp_stream.rs :: impl<S: DnsTcpStream> Stream for TcpStream<S> :: poll_next :: "*pos += read;"@1 .. "Some(ReadTcpState::Bytes { pos: 0, bytes }) }"
+//%expr crates/net/src/tcp/tcp_stream.rs :: impl<S: DnsTcpStream> Stream for TcpStream<S> :: poll_next :: "trace!(\"in ReadTcpState::LenBytes: {}\", pos);" .. "Some(ReadTcpState::Bytes { pos: 0, bytes }) }"
 //%sub1 "u16::from_be_bytes(*bytes)" => "vp_u16_from_be_bytes(*bytes)" # R-shim: u16::from_be_bytes
 //%sub1 "vec![0; length as usize]" => "vp_zeroed(length as usize)" # R-shim: vec![0; n]
 //%sub1 "bytes.resize(length as usize, 0);" => "" # R-shim: Vec::resize to the length the Vec already has (no effect)
@@ -91,7 +91,7 @@ fn read_body_transition(pos: &mut usize, bytes: &mut Vec<u8>, read: usize) -> (n
         *final(pos) < final(bytes)@.len() ==> new_state is None,
         *final(pos) == final(bytes)@.len() ==> (new_state matches Some(ReadTcpState::LenBytes { pos: p, .. }) && p == 0),
 {
-//%expr crates/net/src/tcp/tcp_stream.rs :: impl<S: DnsTcpStream> Stream for TcpStream<S> :: poll_next :: "*pos += read;"@2 .. "bytes: [0u8; 2], }) }"
+//%expr crates/net/src/tcp/tcp_stream.rs :: impl<S: DnsTcpStream> Stream for TcpStream<S> :: poll_next :: "trace!(\"in ReadTcpState::Bytes: {}\", bytes.len());" .. "bytes: [0u8; 2], }) }"
 //%end
 }
 // handing a message out: only a COMPLETE body leaves the state machine (the source asserts it: assert_eq!(pos, bytes.len()))
